@@ -30,10 +30,22 @@ fn components() -> serde_json::Value {
 /// merges and reports: dump what this leg covered and found instead of printing a verdict.
 fn dump_partial(opts: &Opts, rep: &Report) -> Option<i32> {
     let path = opts.get("partial")?;
+    // at most 25 violations per class travel to the merging engine
+    let mut per_class: std::collections::BTreeMap<&str, u64> = Default::default();
+    let kept: Vec<&Violation> = rep
+        .violations
+        .iter()
+        .filter(|v| {
+            let n = per_class.entry(v.class.as_str()).or_insert(0);
+            *n += 1;
+            *n <= 25
+        })
+        .collect();
     let v = json!({
         "evaluations": rep.evaluations, "distinct": rep.distinct.iter().collect::<Vec<_>>(), "faults": rep.faults.to_json(), "probes": rep.probes.to_json(),
         "samples": rep.samples, "rule": rep.rule, "extra": rep.extra, "wall_s": rep.elapsed(),
-        "violations": rep.violations.iter().map(|v| json!({"class": v.class, "summary": v.summary, "subseed": v.subseed, "replay": v.replay})).collect::<Vec<_>>(),
+        "violations": kept.iter().map(|v| json!({"class": v.class, "summary": v.summary, "subseed": v.subseed, "replay": v.replay})).collect::<Vec<_>>(),
+        "violations_total": rep.violations.len(),
     });
     write_json(std::path::Path::new(path), &v);
     println!("{} library leg: evaluations={} violations={} -> {path}", opts.property, rep.evaluations, rep.violations.len());
